@@ -111,7 +111,9 @@ def exchange_s(draw) -> dict[str, Any]:
     else:
         req = draw(refcodec.request_case())
     return {"req": req, "outcome": draw(outcome_s), "analyze": draw(st.booleans()), "tail": draw(st.binary(max_size=6)), "with_ping": draw(st.integers(0, 4)) == 0,
-            "scramble": draw(st.integers(0, 3)) == 0}
+            "scramble": draw(st.integers(0, 3)) == 0,
+            # further tags next to (or instead of) ANALYZE: only ANALYZE decides about the log mode
+            "more_tags": draw(st.sampled_from([[], [], [], ["fuzz"], ["preparation", "x"]])), "tags_first": draw(st.booleans())}
 
 
 @st.composite
@@ -258,7 +260,10 @@ def run_history(case: dict[str, Any], dbpath: Path) -> dict[str, Any]:
                 rec["sent"].append(exp)
                 with_ping = bool(e.get("with_ping")) and kind in ("positive", "negative") and not hang
                 try:
-                    cfg_ = UDSRequestConfig(tags=["ANALYZE"] if e["analyze"] else None, max_retry=1 if kind == "connerr-retry-refused" else None)
+                    tags_ = (["ANALYZE"] if e["analyze"] else []) + list(e.get("more_tags") or [])
+                    if e.get("tags_first"):
+                        tags_.reverse()
+                    cfg_ = UDSRequestConfig(tags=tags_ or None, max_retry=1 if kind == "connerr-retry-refused" else None)
                     if with_ping:
                         # a second user of the client (the tester-present worker's ping) asks while this exchange is in flight; the
                         # client serialises the two, the ping is sent - and recorded - in the state this exchange leaves behind
